@@ -4,6 +4,7 @@ from .common import *
 from vsym.core import choose
 
 PROPERTY = 'C04'
+PYTHON_O = ['step/write-from-any-state', 'fin/close-from-any-state', 'fin/seek-from-any-state']      # obligations that are also explored with the modules compiled as under python -O
 ASSUMPTIONS = [
     'file object = RopeFile (io.BytesIO semantics: positional write, append at end)',
     'payload content is opaque: verdicts hold for every byte content (data independence; the blocker never inspects content)',
@@ -156,6 +157,25 @@ def megabyte():
     return h
 
 
+def oneshot_large():
+    """block_1014 on whole files of concrete size up to a megabyte (any internal batching has to come out the same)"""
+    def h():
+        from . import ref
+        m = M().mciipm
+        n = choose('size', [64 * 1012 + 1, 64 * 1014 + 1, 70000, 1012 * 259, 200000, (1 << 20) + 17])
+        core.FUEL.set(1300)
+        rp = {'kind': 'oneshot', 'args': {'n': n}}
+        core.set_fallback(rp, 'C04/concretised')
+        d = ref.content(n)
+        fi, fo = RopeFile(d), RopeFile()
+        with guard('block_1014 of a large file', 'C04/oneshot', rp):
+            m.block_1014(fi, fo)
+        prob = ref.blocked_problem(fo.getvalue(), d, True)
+        require(prob is None, 'block_1014 of %d bytes: %s' % (n, prob), key='C04/oneshot', replay=rp)
+        return {'sample': {'n': n, 'size': len(fo.getvalue())}, 'replay': rp}
+    return h
+
+
 def obligations(tier):
     q = tier == 'quick'
     nmax = 3 * 1012 + 50 if q else 6100
@@ -172,6 +192,8 @@ def obligations(tier):
         Ob('oneshot/block_1014-vs-streaming', oneshot(3100 if q else 6100, 5 if q else 8), 120,
            'input length 0..%d' % (3100 if q else 6100), _funcs),
     ]
+    obs.append(Ob('oneshot/large-files', oneshot_large(), 120, 'block_1014 on six concrete file sizes between 64 KB and 1 MB (block-aligned, one over, odd)', _funcs,
+                  'other sizes above the symbolic bound'))
     obs.append(Ob('history/megabyte-write', megabyte(), 120, 'three concrete write sequences with one write of about a megabyte (over 1000 blocks)', _funcs,
                   'symbolic write lengths above %d bytes' % nmax))
     if not q:
